@@ -2,6 +2,8 @@ package main
 
 import (
 	"fmt"
+	"io"
+	"log/slog"
 	"math"
 	"sort"
 	"strconv"
@@ -66,6 +68,70 @@ func eventString(e event.Event) string {
 	return kind + "," + hx(e.MetricName()) + "," + fbits(e.Value()) + "," + labelsString(e.Labels())
 }
 
+// debugLogger writes nowhere but has the debug level enabled: what a parser does must not depend on who listens
+var debugLogger = func() *slog.Logger {
+	lvl := promslog.NewLevel()
+	lvl.Set("debug")
+	return promslog.New(&promslog.Config{Level: lvl, Writer: io.Discard})
+}()
+
+// The parser's four switches can be set by the Enable methods (what main() does) or by assigning the exported fields
+// (what a library user may do), in any order; the result must be the same parser.  style: bit i set = flag i is set through
+// its field; bit 4 set = the flags are set in reverse order.
+func newParserStyled(flags, style int) *line.Parser {
+	p := line.NewParser()
+	order := []int{0, 1, 2, 3}
+	if style&16 != 0 {
+		order = []int{3, 2, 1, 0}
+	}
+	for _, i := range order {
+		if flags&(1<<i) == 0 {
+			continue
+		}
+		field := style&(1<<i) != 0
+		switch i {
+		case 0:
+			if field {
+				p.DogstatsdTagsEnabled = true
+			} else {
+				p.EnableDogstatsdParsing()
+			}
+		case 1:
+			if field {
+				p.InfluxdbTagsEnabled = true
+			} else {
+				p.EnableInfluxdbParsing()
+			}
+		case 2:
+			if field {
+				p.LibratoTagsEnabled = true
+			} else {
+				p.EnableLibratoParsing()
+			}
+		case 3:
+			if field {
+				p.SignalFXTagsEnabled = true
+			} else {
+				p.EnableSignalFXParsing()
+			}
+		}
+	}
+	return p
+}
+
+// how this line's parser is built and which logger it gets: a function of the line, so that a case replays exactly
+func lineStyle(l string) (style int, logger *slog.Logger) {
+	h := len(l) * 7
+	for i := 0; i < len(l) && i < 4; i++ {
+		h = h*31 + int(l[i])
+	}
+	logger = promslog.NewNopLogger()
+	if h%3 == 0 {
+		logger = debugLogger
+	}
+	return (h / 3) & 31, logger
+}
+
 func newParser(flags int) *line.Parser {
 	p := line.NewParser()
 	if flags&1 != 0 {
@@ -123,12 +189,13 @@ func lineOne(flags int, l string) (res string) {
 			res = "PANIC"
 		}
 	}()
-	p := newParser(flags)
+	style, logger := lineStyle(l)
+	p := newParserStyled(flags, style)
 	sampleErrors := prometheus.NewCounterVec(prometheus.CounterOpts{Name: "e"}, []string{"reason"})
 	samples := prometheus.NewCounter(prometheus.CounterOpts{Name: "s"})
 	tagErrors := prometheus.NewCounter(prometheus.CounterOpts{Name: "te"})
 	tagsReceived := prometheus.NewCounter(prometheus.CounterOpts{Name: "tr"})
-	evs := p.LineToEvents(l, *sampleErrors, samples, tagErrors, tagsReceived, promslog.NewNopLogger())
+	evs := p.LineToEvents(l, *sampleErrors, samples, tagErrors, tagsReceived, logger)
 	es := make([]string, 0, len(evs))
 	for _, e := range evs {
 		es = append(es, eventString(e))
